@@ -449,7 +449,7 @@ func verifC13Run(t *testing.T, dbPath string, s *verifC13Scenario,
 			if s.Kind == "breach" && next == conf+4 {
 				w.breachComplete(cur)
 			}
-			w.mine(cur)
+			w.mine(t, cur)
 		})
 	}
 
